@@ -32,7 +32,7 @@ ASSUMPTIONS = ["per-target expectation = the library's own root merge of indepen
 REACH = [("yamlpath/merger/merger.py", "_insert_dict,_insert_list,_insert_set,_insert_scalar,_get_merge_target_nodes,merge_with,_replace_merge_target", "Merger._insert_* / _get_merge_target_nodes / merge_with"),
          ("yamlpath/merger/mergerconfig.py", "get_insertion_point", "MergerConfig.get_insertion_point")]
 SIZES = {"quick": 30000, "thorough": 800000}
-REQUIRED_COUNTERS = ["created_keys_with_separator_characters", "create_under_several_parents_cases", "empty_lhs_cases", "rule_at_merge_point_cases", "target_sharing_checked", "merge_key_target_cases", "retyped_equal_rhs_cases", "cli_uncreatable_cases", "traversal_mergeat_cases", "existing_single", "existing_multiple", "created", "uncreatable"]
+REQUIRED_COUNTERS = ["self_merging_rhs_cases", "created_keys_with_separator_characters", "create_under_several_parents_cases", "empty_lhs_cases", "rule_at_merge_point_cases", "target_sharing_checked", "merge_key_target_cases", "retyped_equal_rhs_cases", "cli_uncreatable_cases", "traversal_mergeat_cases", "existing_single", "existing_multiple", "created", "uncreatable"]
 SAMPLE = [("deep", "all", "all", "unique"), ("deep", "unique", "deep", "unique"), ("right", "right", "right", "right"),
           ("left", "left", "left", "left"), ("deep", "right", "unique", "left"), ("right", "all", "deep", "unique")]
 
@@ -374,6 +374,27 @@ def create_under_several_parents_case(ctx, rng):
         ctx.violation("differs/create-under-several-parents", {"case": case, "summary": "result %r" % yp.dump(m.data)[:300]})
 
 
+def self_merging_rhs_case(ctx, rng):
+    """A right-hand Array-of-Hashes whose records share an identity value (they merge into EACH OTHER under the deep
+    Array-of-Hashes policy), aimed at SEVERAL targets: every target must end up as the root merge of its own copy of the
+    right-hand document as it was given - not as merging into an earlier target has left it."""
+    n = rng.randrange(2, 4)
+    ids = [rng.choice("12") for _ in range(rng.randrange(2, 5))]
+    recs = ", ".join("{id: %s, v: [%d]%s}" % (i, j, rng.choice(["", ", w: {k%d: %d}" % (j, j)])) for j, i in enumerate(ids))
+    shape = rng.choice(["root-aoh", "nested-aoh"])
+    if shape == "root-aoh":
+        rtext = "[%s]" % recs
+        tpool = ["[]", "[{id: 1, v: [9]}]", "[{id: 3}]", "[{id: 2, v: [8]}, {id: 1}]"]
+    else:
+        rtext = "{recs: [%s]}" % recs
+        tpool = ["{}", "{recs: []}", "{recs: [{id: 1, v: [9]}]}", "{o: 1}"]
+    ltext = "{s: {%s}, keep: [{id: 1, v: [7]}]}" % ", ".join("t%d: %s" % (i, rng.choice(tpool)) for i in range(n))
+    combo = rng.choice([("deep", "all", "deep", "unique"), ("deep", "unique", "deep", "unique"), ("deep", "all", "all", "unique"),
+                        ("deep", "all", "unique", "unique")])
+    ctx.count("self_merging_rhs_cases")
+    run_case(ctx, ltext, rtext, [("KEY", "s"), rng.choice([("ALL",), ("SEARCH", False, "^", ".", "t")])], "multiple", combo)
+
+
 def empty_lhs_case(ctx, rng):
     """The left-hand document is EMPTY (null): a merge at a path of keys creates that path to hold the right-hand document;
     a merge at the root makes the document the right-hand document."""
@@ -452,6 +473,7 @@ def run_shard(ctx):
             rule_at_merge_point_case(ctx, rng)
             create_under_several_parents_case(ctx, rng)
             empty_lhs_case(ctx, rng)
+            self_merging_rhs_case(ctx, rng)
             continue
         lt = C05.gen_tree(rng, 0, "map")
         if len(lt[1]) < 2:
